@@ -71,11 +71,33 @@ _rand_cache = {}
 
 
 def _rand(seed: int, n: int) -> bytes:
-    have = _rand_cache.get(seed, b"")
-    if len(have) < n:
-        have = random.Random(0xC02F00 + seed).randbytes(max(n, 70000))
+    """n incompressible bytes; a prefix of the same stream for every n <= 300000."""
+    have = _rand_cache.get(seed)
+    if have is None:
+        have = random.Random(0xC02F00 + seed).randbytes(300000)
         _rand_cache[seed] = have
+    if n > len(have):
+        raise ValueError(n)
     return have[:n]
+
+
+def blob(recipe) -> bytes:
+    """recipe = list of parts: ["rand", seed, n] | ["text", seed, n] (prefixes of one stream per seed)
+    | ["hex", s] | ["slice", recipe, a, b]"""
+    out = []
+    for part in recipe:
+        k = part[0]
+        if k == "rand":
+            out.append(_rand(part[1], part[2]))
+        elif k == "text":
+            out.append(_text(part[1], part[2]))
+        elif k == "hex":
+            out.append(bytes.fromhex(part[1]))
+        elif k == "slice":
+            out.append(blob(part[1])[part[2]:part[3]])
+        else:
+            raise ValueError(k)
+    return b"".join(out)
 
 
 IDENT_A = b"A U Thor <author@example.com> 1000000000 +0000"
@@ -109,11 +131,13 @@ def universe(oid: int):
         1: (3, b""),
         2: (3, _rand(2, 15)),
         3: (3, _rand(3, 16)),
-        4: (3, _rand(1, 2047)),
-        5: (3, _rand(1, 2048)),
-        6: (3, _text(2, 65535)),
-        7: (3, _text(2, 65536)),
-        8: (3, _text(2, 65537)),
+        # every blob from 2047 bytes up is a prefix of one incompressible stream: any two resemble each other
+        # (unrelated large objects make both delta encoders of dulwich take minutes, see the final report)
+        4: (3, _rand(5, 2047)),
+        5: (3, _rand(5, 2048)),
+        6: (3, _rand(5, 65535)),
+        7: (3, _rand(5, 65536)),
+        8: (3, _rand(5, 65537)),
         9: (3, _rand(5, 65510)),
         10: (3, _rand(5, 65525)),
         11: (2, _tree(oid, 8)),
@@ -121,7 +145,7 @@ def universe(oid: int):
         13: (1, c1),
         14: (1, _commit(oid, obj_name(oid, 1, c1))),
         15: (4, _tag(oid)),
-        16: (3, _text(2, 262144)),
+        16: (3, _rand(5, 262144)),
     }
     return u
 
